@@ -24,45 +24,29 @@ Proof. exact base_safe_all. Qed.
 Theorem C18_base_monitor_sound : forall log, base_spec_ok log = true -> base_safe log.
 Proof. exact base_spec_ok_safe. Qed.
 
-(* Peer leecher, every parallelism limit, every oracle (Done / Suspend / IsProcessed answers
-   per routine run) whose Done() is monotone, and every sequence of chunk arrivals and ticks
-   (a tick may run routine() in every state: the ticker branch of loop() does not look at
-   d.done). *)
+(* Peer leecher (repaired routine(), fixes/C18b.patch): every parallelism limit, EVERY oracle
+   (Done / Suspend / IsProcessed answers per routine run; Done() need not be monotone) and every
+   sequence of chunk arrivals, ticks (enabled in every state: the ticker branch of loop() does
+   not look at d.done) and external Terminate() calls. *)
 Theorem C18_peer_monitor : forall par oracle ops,
-  oracle_mono oracle ->
   peer_spec_ok par (snd (prun par oracle p_init ops)) = true.
 Proof. exact peer_monitor_ok. Qed.
 
-(* ... which means: once Done() has answered true only further Done() = true polls follow (no
-   IsProcessed, Suspend, RequestChunks); every RequestChunks keeps requested <= processed +
-   parallel and is not issued in a suspended run. *)
-Theorem C18_peer_safe : forall par oracle ops,
-  oracle_mono oracle -> peer_safe par (snd (prun par oracle p_init ops)).
+(* ... which means: once Done() has answered true, or an external Terminate() has returned, no
+   callback is made any more (no Done, IsProcessed, Suspend, RequestChunks); every RequestChunks
+   keeps requested <= processed + parallel and is not issued in a suspended run. *)
+Theorem C18_peer_safe : forall par oracle ops, peer_safe par (snd (prun par oracle p_init ops)).
 Proof. exact peer_safe_all. Qed.
-
-(* the hypothesis is needed: with a Done() that goes back to false a terminated leecher
-   requests again through the ticker branch (model and real code alike) *)
-Example C18_peer_nonmonotone_done :
-  snd (prun 1 (script_oracle [(true, false, []); (false, false, [])]) p_init [PTick; PTick]) =
-  [PDone true; PDone false; PSusp false; PReq 1].
-Proof. exact peer_nonmonotone_done_requests_after_termination. Qed.
-
-(* ... and it is satisfiable: scripts that stay done once done *)
-Example C18_oracle_mono_nonvacuous :
-  oracle_mono (script_oracle [(false, false, []); (false, true, [5]); (true, false, [])]).
-Proof. intros [|[|[|k]]]; vm_compute; auto. Qed.
 
 Theorem C18_peer_monitor_sound : forall par log, peer_spec_ok par log = true -> peer_safe par log.
 Proof. exact peer_spec_ok_safe. Qed.
 
 (* state invariant behind it, and tightness: an unsuspended, not-done run fills the window *)
 Theorem C18_peer_window : forall par oracle ops,
-  oracle_mono oracle ->
   let s := fst (prun par oracle p_init ops) in p_req s <= p_proc s + par.
 Proof. exact peer_window_inv. Qed.
 
 Theorem C18_peer_window_full : forall par oracle ops o,
-  oracle_mono oracle ->
   let s := fst (prun par oracle p_init ops) in
   p_done s = false ->
   a_done (oracle (p_run s)) = false -> a_susp (oracle (p_run s)) = false ->
@@ -88,6 +72,12 @@ Example C18_peer_nontrivial :
    PDone false; PIsProc 6 true; PSusp false; PReq 2;
    PDone true].
 Proof. vm_compute. reflexivity. Qed.
+
+(* an external Terminate() and a Done() that goes back to false: nothing is called afterwards *)
+Example C18_peer_stops :
+  snd (prun 1 (script_oracle [(true, false, []); (false, false, [])]) p_init [PTick; PTick; PChunk 3]) = [PDone true] /\
+  snd (prun 1 (script_oracle [(false, false, [])]) p_init [PTerminate; PTick; PChunk 3]) = [PTerminated].
+Proof. exact peer_witness_repaired. Qed.
 
 (* the window hypothesis of C18_peer_window_full is satisfiable *)
 Example C18_peer_window_full_nonvacuous :
